@@ -1,4 +1,5 @@
 import FalconModel.WsgiStreamFixed
+import FalconModel.StreamFault
 open Ws7 (Bytes S)
 open Ws7F
 def hexD (n : Nat) : Char := if n < 10 then Char.ofNat (48+n) else Char.ofNat (87+n)
@@ -21,6 +22,12 @@ def step (s : S) (line : String) : S × String :=
   | ["readlines", n] => let (d, s) := readlines s (optInt n); (s, "lines " ++ " ".intercalate (d.map toHex) ++ st s)
   | ["next"] => let (d, s) := next s; (s, (match d with | some b => "data " ++ toHex b | none => "stop") ++ st s)
   | ["exhaust", c] => let s := exhaust s c.toInt!; (s, "unit" ++ st s)
+  -- an operation abandoned because a call into wsgi.input raised (Wf): `k` = number of source calls of the operation that had returned before
+  | ["fault", "read", n] => let s := Wf.readFault s (optInt n); (s, "fault" ++ st s)
+  | ["fault", "readline", n] => let s := Wf.readlineFault s (optInt n); (s, "fault" ++ st s)
+  | ["fault", "next"] => let s := Wf.nextFault s; (s, "fault" ++ st s)
+  | ["fault", "readlines", n, k] => let s := Wf.readlinesFault s (optInt n) k.toNat!; (s, "fault" ++ st s)
+  | ["fault", "exhaust", c, k] => let s := Wf.exhaustFault s c.toInt! k.toNat!; (s, "fault" ++ st s)
   | _ => (s, "bad-op")
 partial def loop (h : IO.FS.Stream) (s : S) : IO Unit := do
   let line ← h.getLine
